@@ -53,6 +53,9 @@ def run(chk, tier):
                 'the real verification.')
     cfg = 'mocks'
     F = load(chk, cfg)
+    # R20.5 a script is a tuple of clauses: every element of every arity reaches the assembler, in order
+    from props import assembly as A
+    A.tuple_order(chk, F, 'R20.5', cfg)
     uni = mirrored(F, 'Unimock')
     dele = mirrored(F, 'default_impl_delegator::DefaultImplDelegator')
     traits = sorted(set(im['trait'] for im in uni))
